@@ -22,6 +22,8 @@ const preludeSMT = `
 (declare-fun bitnot (Int) Int)
 (declare-fun streq ((Array Int Int) Int Int (Array Int Int) Int Int) Bool)
 (declare-fun shift ((Array Int Int) Int) (Array Int Int))
+(declare-fun shiftU ((Array Int U) Int) (Array Int U))
+(assert (forall ((a (Array Int U)) (o Int) (j Int)) (! (= (select (shiftU a o) j) (select a (+ o j))) :pattern ((select (shiftU a o) j)))))
 (assert (forall ((a (Array Int Int)) (o Int) (j Int)) (! (= (select (shift a o) j) (select a (+ o j))) :pattern ((select (shift a o) j)))))
 (define-fun isS ((a (Array Int Int)) (j Int)) Bool (and (= (select a j) 226) (= (select a (+ j 1)) 128) (= (select a (+ j 2)) 185)))
 (define-fun isE ((a (Array Int Int)) (j Int)) Bool (and (= (select a j) 226) (= (select a (+ j 1)) 128) (= (select a (+ j 2)) 186)))
@@ -98,7 +100,7 @@ func init() {
 var preludeDefined = map[string]bool{
 	"nilU": true, "emptyArr": true, "godiv": true, "gorem": true, "bitand": true, "bitor": true, "bitnot": true, "streq": true,
 	"isS": true, "isE": true, "isM": true, "dep": true, "depStep": true, "clean": true, "WF": true, "LS": true,
-	"WFP": true, "depConst": true, "shift": true, "CS": true, "sameView": true, "badTail": true, "noMarker": true, "noNL": true, "sameBytes": true, "endsS": true, "endsE": true, "frag": true,
+	"WFP": true, "depConst": true, "shift": true, "shiftU": true, "CS": true, "sameView": true, "badTail": true, "noMarker": true, "noNL": true, "sameBytes": true, "endsS": true, "endsE": true, "frag": true,
 }
 
 // axiomsFor produces on-demand declarations and ground axiom instances for a query.
